@@ -990,9 +990,10 @@ func (dsc *dataStoreCommand) randomKey() (output respValue) {
 		l := len(dsc.ds.data.buckets)
 		n := rand.Intn(l)
 
-		for {
+		// one pass over the table, starting at a random bucket, skipping expired keys
+		for range dsc.ds.data.buckets {
 			item := dsc.ds.data.buckets[n]
-			if item != nil {
+			if item != nil && !item.value.(*storeKey).isExpiredUnlocked() {
 				output.data = respBulkString(item.key)
 				return
 			}
@@ -1000,6 +1001,18 @@ func (dsc *dataStoreCommand) randomKey() (output respValue) {
 			if n >= l {
 				n = 0
 			}
+		}
+	}
+	return
+}
+
+func (dsc *dataStoreCommand) dbSize() (size int) {
+	dsc.lock()
+	defer dsc.unlock()
+
+	for i := dsc.ds.data.createIterator(); i.next(); {
+		if !i.value.(*storeKey).isExpiredUnlocked() {
+			size++
 		}
 	}
 	return
